@@ -53,7 +53,9 @@ def run_one(prop, shared, tier, seed, only=None):
             ctx.findings = [f for f in ctx.findings if f.rule == only or f.rule.startswith(only + '.')]
         return finish(ctx, mod.EXPLANATION, mod.ASSUMPTIONS, mod.NOT_DECIDED)
     except AnalysisError as e:
-        if ctx.findings:
+        from .core import load_known_findings as _lkf
+        _kk = {k['key'] for k in _lkf().get('known', []) if k.get('property') == prop}
+        if [f for f in ctx.findings if f.key not in _kk]:
             # something was already positively identified as violated: report it; the analysis error is a note
             ctx.notes.append('analysis stopped early: %s' % e)
             print('NOTE property=%s analysis stopped early after findings: %s' % (prop, e))
